@@ -762,7 +762,14 @@ class Model(Object):
                     model_metabolite._reaction.add(reaction)
                     if context:
                         context(partial(model_metabolite._reaction.remove, reaction))
+            # A reaction that was removed from this model before still holds the
+            # model's genes while these no longer list it. Linking them again is
+            # part of adding the reaction and has to be undone with it.
+            kept_genes = set(reaction._genes)
             reaction.update_genes_from_gpr()
+            if context:
+                for gene in reaction._genes & kept_genes:
+                    context(partial(gene._reaction.discard, reaction))
 
         self.reactions += pruned
 
